@@ -42,8 +42,10 @@ structure Defects where
   /-- a local row without room (every system row) has `old_room_id = None`: no right on it is checked
       before it is overwritten (authorisation_service.rs:1152) -/
   roomlessReplaceUnchecked : Bool
-  /-- `delete_nodes` / `delete_edges` take no room argument: records of any room are accepted while
-      another room is being synchronised (peer_inbound_service.rs:810-835) -/
+  /-- `delete_nodes` / `delete_edges` take no room argument and `synchronise_day` hands them whatever the
+      peer answered: records of any room are accepted while another room is being synchronised
+      (peer_inbound_service.rs:810-835). The repair drops the records that do not name the synchronised room
+      from the answer, before anything else is done with it (`keepEdgeDels`, `keepNodeDels`). -/
   delRoomUnchecked : Bool
   /-- the entity named by a node deletion record is never compared with the entity of the row it
       deletes (`DELETE FROM _node WHERE room_id=? AND id=?`, node.rs:951) -/
@@ -59,9 +61,33 @@ structure Defects where
   authEntityUnchecked : Bool
 deriving Repr, DecidableEq
 
-/-- /repo as it is now. Fixed since the first run of this check (regression witnesses are kept about
-    `Defects.beforeFixes`): `roomlessReplaceUnchecked` (/repo 37a7f03), `jsonAbsentUnchecked` (/repo e73c9e7). -/
+/-- /repo as it is now, one switch per line (a repair of /repo turns its line to `false`: findings/C02-*.verif.patch).
+    Fixed since the first run of this check (regression witnesses are kept about `Defects.beforeFixes`):
+    `roomlessReplaceUnchecked` (/repo 37a7f03), `jsonAbsentUnchecked` (/repo e73c9e7), `authEntityUnchecked` (/repo 4dd7eb7). -/
 def Defects.asImplemented : Defects :=
+  { -- open: needs a new query per incoming reference (findings/C02-open-findings.md)
+    edgeSourceUnchecked := true,
+    -- open: needs the author of the stored reference, same new query
+    edgeReplaceUnchecked := true,
+    -- findings/C02-replace-other-entity.patch
+    entityChangeUnchecked := true,
+    -- fixed: /repo 37a7f03
+    roomlessReplaceUnchecked := false,
+    -- findings/C02-deletion-of-other-room.patch
+    delRoomUnchecked := true,
+    -- findings/C02-deletion-entity-mismatch.patch
+    delEntityUnchecked := true,
+    -- open: a repair would refuse honest records after a room move (findings/C02-open-findings.md)
+    edgeDelSourceUnchecked := true,
+    -- fixed: /repo e73c9e7
+    jsonAbsentUnchecked := false,
+    -- fixed: /repo 4dd7eb7
+    authEntityUnchecked := false }
+
+/-- /repo at 846341e, before the second series of repairs (replace-other-entity, deletion-of-other-room,
+    deletion-entity-mismatch): the value the witnesses `C02_breaks_*` of the seven shapes are stated about, so that
+    they stay true whatever `asImplemented` becomes -/
+def Defects.beforeFix : Defects :=
   { edgeSourceUnchecked := true, edgeReplaceUnchecked := true, entityChangeUnchecked := true,
     roomlessReplaceUnchecked := false, delRoomUnchecked := true, delEntityUnchecked := true,
     edgeDelSourceUnchecked := true, jsonAbsentUnchecked := false, authEntityUnchecked := false }
@@ -309,10 +335,10 @@ def dedupDel : List InNodeDel → List InNodeDel
   | [] => []
   | x :: rest => if rest.any (·.entry.id = x.entry.id) then dedupDel rest else x :: dedupDel rest
 
-def nodeDelAccepted (d : Defects) (s : Inst) (room : Nat) (r : NodeDel) : Bool :=
+/-- `GraphDatabase::delete_nodes` + `validate_node_deletions` on one record (no room is passed to them) -/
+def nodeDelAccepted (d : Defects) (s : Inst) (r : NodeDel) : Bool :=
   let l := localRow s.nodes r.id
   knownEnt r.ent && (d.authEntityUnchecked || !authEnt r.ent) &&
-  (d.delRoomUnchecked || r.room = room) &&
   (d.delEntityUnchecked || match l with | some l => l.ent = r.ent | none => true) &&
   canIn s r.room r.key r.ent r.ddate (needRight (l.map (·.key)) r.key)
 
@@ -328,8 +354,8 @@ def applyNodeDel (s : Inst) (r : NodeDel) : Inst :=
 
 /-- the verdicts are taken on the table as it is before the call (`validate_node_deletions` runs on
     the authors gathered by `with_previous_authors`), then the records are applied -/
-def deleteNodes (d : Defects) (s : Inst) (room : Nat) (recs : List InNodeDel) : Inst :=
-  ((dedupDel recs).filter fun r => nodeDelAccepted d s room r.entry).foldl (fun st r => applyNodeDel st r.entry) s
+def deleteNodes (d : Defects) (s : Inst) (recs : List InNodeDel) : Inst :=
+  ((dedupDel recs).filter fun r => nodeDelAccepted d s r.entry).foldl (fun st r => applyNodeDel st r.entry) s
 
 def edgeMatches (r : EdgeDel) (e : EdgeRow) : Bool :=
   e.src = r.src && e.srcEnt = r.srcEnt && e.label = r.label && e.dst = r.dst && e.cdate = r.cdate
@@ -340,9 +366,8 @@ def edgeDelSourceOk (s : Inst) (r : EdgeDel) : Bool :=
   | some l => l.room = some r.room && l.ent = r.srcEnt
   | none => true
 
-def edgeDelAccepted (d : Defects) (s : Inst) (room : Nat) (r : EdgeDel) : Bool :=
+def edgeDelAccepted (d : Defects) (s : Inst) (r : EdgeDel) : Bool :=
   knownEnt r.srcEnt && (d.authEntityUnchecked || !authEnt r.srcEnt) &&
-  (d.delRoomUnchecked || r.room = room) &&
   (d.edgeDelSourceUnchecked || edgeDelSourceOk s r) &&
   canIn s r.room r.key r.srcEnt r.ddate (needRight ((s.edges.find? (edgeMatches r)).map (·.key)) r.key)
 
@@ -354,8 +379,8 @@ def applyEdgeDel (s : Inst) (r : EdgeDel) : Inst :=
     edges := s.edges.filter fun e => !edgeMatches r e,
     edgeLog := s.edgeLog.filter (fun x => !edgeLogKeyEq r x) ++ [r] }
 
-def deleteEdges (d : Defects) (s : Inst) (room : Nat) (recs : List InEdgeDel) : Inst :=
-  (recs.filter fun r => edgeDelAccepted d s room r.entry).foldl (fun st r => applyEdgeDel st r.entry) s
+def deleteEdges (d : Defects) (s : Inst) (recs : List InEdgeDel) : Inst :=
+  (recs.filter fun r => edgeDelAccepted d s r.entry).foldl (fun st r => applyEdgeDel st r.entry) s
 
 /-! ### one day of one room, as `synchronise_day` sequences it -/
 
@@ -402,12 +427,21 @@ def syncNodesEdges (d : Defects) (s : Inst) (room : Nat) (b : Batch) : Inst × O
         let er := edgeStage d r.1 room b.edges
         (er.1, .done r.2 er.2)
 
+/-- what `synchronise_day` keeps of the answer to `EdgeDeletionLog(room, ..)`: everything (as written);
+    the records that name the synchronised room (repaired) -/
+def keepEdgeDels (d : Defects) (room : Nat) (l : List InEdgeDel) : List InEdgeDel :=
+  if d.delRoomUnchecked then l else l.filter fun r => r.entry.room = room
+
+/-- the same for the answer to `NodeDeletionLog(room, ..)` -/
+def keepNodeDels (d : Defects) (room : Nat) (l : List InNodeDel) : List InNodeDel :=
+  if d.delRoomUnchecked then l else l.filter fun r => r.entry.room = room
+
 def syncDay (d : Defects) (s : Inst) (room : Nat) (b : Batch) : Inst × Outcome :=
-  if !b.edgeDels.all (·.sigOk) then (s, .sigError .edgeDels)
+  if !(keepEdgeDels d room b.edgeDels).all (·.sigOk) then (s, .sigError .edgeDels)
   else
-    let s1 := deleteEdges d s room b.edgeDels
-    if !b.nodeDels.all (·.sigOk) then (s1, .sigError .nodeDels)
-    else syncNodesEdges d (deleteNodes d s1 room b.nodeDels) room b
+    let s1 := deleteEdges d s (keepEdgeDels d room b.edgeDels)
+    if !(keepNodeDels d room b.nodeDels).all (·.sigOk) then (s1, .sigError .nodeDels)
+    else syncNodesEdges d (deleteNodes d s1 (keepNodeDels d room b.nodeDels)) room b
 
 /-- who relays the rows is not an input of the ingestion path -/
 def syncDayFrom (d : Defects) (_relay : Key) (s : Inst) (room : Nat) (b : Batch) : Inst × Outcome :=
